@@ -194,7 +194,7 @@ func C35(c *core.Ctx) {
 		}
 		return true
 	}
-	steps := c.Pick(400, 3000)
+	steps := c.Pick(1200, 3000)
 	for s := 0; s < steps; s++ {
 		a := actors[r.Intn(len(actors))]
 		if a.mode != "" && r.Intn(2) == 0 {
@@ -254,7 +254,7 @@ func C35(c *core.Ctx) {
 			a.mode = ""
 		}
 	}
-	for race := 0; race < c.Pick(30, 300); race++ {
+	for race := 0; race < c.Pick(90, 300); race++ {
 		d := dbs[race%2]
 		var wg sync.WaitGroup
 		wins := make([]bool, 3)
